@@ -36,7 +36,8 @@ SPEC = {
         "C19_p2_average_comm", "C19_p2_average_between", "C19_p3_average_between",
         "C19_v2_unitDir_err_iff", "C19_v2_normalDir_err_iff", "C19_v3_unitDir_err_iff",
         "C19_unitDirR2_spec", "C19_normalDirR2_spec", "C19_unitDirR3_spec",
-        "C19_fl_v2_sub_self", "C19_fl_v2_add_sub_bound", "C19_fl_orient_sign",
+        "C19_fl_v2_sub_self", "C19_fl_v2_add_sub_bound", "C19_fl_orient_sign", "C19_fl_v3_cross_dot_bound",
+        "C19_fl_v3_cross_antisymm", "C19_fl_p2_average_between", "C19_faceSkew_start_dart",
         "C19_skew_mem_Ico", "C19_skew_eq_zero_of_equiangular", "C19_skew_rotate", "C19_skew_reverse",
         "C19_faceSkew_similarity",
     ],
@@ -64,19 +65,22 @@ SPEC = {
             "near-collinear triples within a few ulps of the rounding band); skew: convex polygons inscribed in random "
             "ellipses, corner angles in [0.05, pi-0.05]. distinct_nontrivial = distinct implementation transcripts.",
     "not_proved": [
-        "IEEE-754 binary32/binary64 satisfy RoundModel (hypothesis of every C19_fl_* theorem)",
-        "bit-for-bit clauses about the compiled code (compound = binary, dot symmetric, cross antisymmetric): proved "
-        "for the model in every arithmetic (rfl / FlR fl), validated on f64/f32 by the float stream",
-        "rounding bound on (a x b).a and (a x b).b (orthogonality of the computed cross product): validated with the "
-        "bound 6u * sum|a_i|(|p_i|+|q_i|) on random floats, not proved",
-        "computed average lies between its arguments in floating point (proved over ordered fields only)",
+        "IEEE-754 binary32/binary64 satisfy RoundModel (hypothesis of every C19_fl_* bound), rounding is odd "
+        "(hypothesis of C19_fl_v3_cross_antisymm) and monotone with representable inputs (hypotheses of "
+        "C19_fl_p2/p3_average_between): true of round-to-nearest without overflow/underflow, not proved (no IEEE theory "
+        "in Mathlib); validated by the float stream",
+        "bit-for-bit clauses about the compiled code (compound = binary, dot symmetric, average symmetric): proved for "
+        "the model in every arithmetic (rfl for any coordinate type / FlR fl for any fl), validated on f64/f32",
+        "sign of zero: cross(a,b) and -cross(b,a) differ in the sign of zero components (+0 vs -0); compared as values",
         "unit_dir / normal_dir return a vector of norm 1 +- 1e-12 (f64) / 1e-5 (f32), parallel resp. orthogonal up to the "
-        "same tolerance: exact over R (C19_unitDirR2_spec, C19_normalDirR2_spec, C19_unitDirR3_spec), tolerance test on floats",
+        "same tolerance: exact over R (C19_unitDirR2_spec, C19_normalDirR2_spec, C19_unitDirR3_spec), tolerance test on "
+        "floats (hypot/sqrt accuracy is outside the model)",
         "skewness ~ 0 for regular polygons and invariance up to 1e-9 in floating point: exact over R "
-        "(C19_skew_eq_zero_of_equiangular, C19_faceSkew_similarity, C19_skew_rotate/reverse), tolerance test on floats",
-        "start-dart invariance is proved on the list of corner angles (C19_skew_rotate), not on the polygon "
-        "(corners of a rotated vertex list = rotated corners: validated by the skew stream)",
+        "(C19_skew_eq_zero_of_equiangular, C19_faceSkew_similarity, C19_faceSkew_start_dart, C19_skew_reverse), tolerance "
+        "test on floats (acos accuracy is outside the model); 3-D faces: the formula is the same, invariance under 3-D "
+        "isometries is validated only",
         "polygon angle sum and convexity => angles in ]0,pi[ (hypotheses of C19_skew_mem_Ico)",
+        "reversal of the face orientation is proved on the list of corner angles, not on the polygon",
         "Vector2 -= Vector2 equals Vector2 - Vector2: FALSE (finding D12; C19_v2_subAssign_fails, "
         "C19_v2_subAssign_eq_iff is the partial theorem)",
     ],
